@@ -45,6 +45,17 @@ def jobs(seed=0):
                  loops={"reim4_convolution_1coeff_ref": {"count": 1, "loops": [{"id": 0, "assigns": "j, __CPROVER_object_upto(dest, 64)",
                         "invariants": "jmin <= j && j <= jmax && jmax <= sizeb && jmax <= k + 1 && k < jmin + sizea", "decreases": "jmax - j"}]}},
                  functions=["reim4_convolution_1coeff_ref"], timeout=600, bound_note="every k, sizea, sizeb <= 100000: window bounds jmin/jmax keep a + 8(k-j) and b + 8j inside the operands"))
+    J.append(Job(name="reim4.convolution_2coeff_ref", props=["C17", "C11", "C18", "C15"], shape="S2", sources=R4, harness="reim4_prod.c", entry="h_conv2",
+                 enforce=[("reim4_convolution_2coeff_ref", "conv2__c")], replace=[("reim4_convolution_1coeff_ref", "conv1_view__c")],
+                 functions=["reim4_convolution_2coeff_ref"], timeout=600, bound_note="loop-free; the 1-coefficient kernel is replaced by its contract + ghost view"))
+    J.append(Job(name="reim4.convolution_ref", props=["C17", "C11", "C18", "C15"], shape="S1", sources=R4, harness="reim4_prod.c", entry="h_conv",
+                 enforce=[("reim4_convolution_ref", "conv__c")],
+                 replace=[("reim4_convolution_1coeff_ref", "conv1_view__c"), ("reim4_convolution_2coeff_ref", "conv2_view__c")],
+                 loops={"reim4_convolution_ref": {"count": 1, "loops": [{"id": 0, "assigns": "k, GVIEW, __CPROVER_object_upto(dest, dest_size * 64)",
+                        "invariants": "k <= dest_size && (GC < k ==> (GVIEW == GC + dest_offset && ((GC + dest_offset + 1 < sizea + sizeb && sizea != 0 && sizeb != 0) || ((const unsigned long*)(dest + 8 * GC))[GK] == 0)))",
+                        "decreases": "dest_size - k"}]}},
+                 functions=["reim4_convolution_ref"], timeout=600,
+                 bound_note="every dest_size, dest_offset, sizea, sizeb <= 100000: block g of the window holds coefficient dest_offset+g (ghost view of one tracked block)"))
     # fftvec_jobs() (contracts/fftvec.c) are NOT registered: every run timed out on both SAT back ends -- equality of two
     # IEEE-754 multiplier circuits, even at m=1 (DESIGN 5/C17, 5/C13: pointwise products not covered)
     return J
